@@ -54,7 +54,7 @@ REAL_VS_STUB = {
 }
 TIERS = {
     "quick": {"runs": 3200, "budget_s": 60, "chunk": 16, "det_pairs": 48, "fresh": 4},
-    "thorough": {"runs": 40000, "budget_s": 900, "chunk": 24, "det_pairs": 384, "fresh": 24},
+    "thorough": {"runs": 40000, "budget_s": 900, "chunk_timeout": 900, "chunk": 24, "det_pairs": 384, "fresh": 24},
 }
 
 EXCS = {"ValueError": ValueError, "ZeroDivisionError": ZeroDivisionError,
@@ -63,6 +63,11 @@ EXCS = {"ValueError": ValueError, "ZeroDivisionError": ZeroDivisionError,
         "RuntimeError": RuntimeError, "KeyError": KeyError, "TypeError": TypeError,
         "IndexError": IndexError, "OverflowError": OverflowError,
         "AssertionError": AssertionError, "OSError": OSError}
+
+
+def isolate(case: dict) -> bool:
+    """Runs with an injected disk fault execute in a forked child (see runner._run_case_forked)."""
+    return bool(case.get("disk_fault"))
 
 
 class InjectedStepperError(Exception):
